@@ -188,6 +188,17 @@ def check_aba(ctx, st, S, A, B, patA, patB, atol, seed, w, tol, fraction=1.0, sa
         ctx.fail("%d occurrences of A were replaced by B, but %d occurrences of B are found afterwards" % (len(o1["found"]), len(o2["found"])), witness=w)
         return len(o1["found"])
     S2 = o2["result"]
+    # the tolerance-based bound is the worst case; what the two alignments really have to absorb is how far the matched copies
+    # are from exact images of the pattern (zero for exact copies): the same formula on the largest measured deviation, with margin
+    if len(patA["elements"]) >= 2 and o1.get("found_positions") is not None:
+        try:
+            dev = max(G.kabsch(np.asarray(patA["positions"], float), np.asarray(x, float))[3] for x in o1["found_positions"])
+            tol_m = 6 * c05.bound(dev, patA["positions"], patB["positions"]) + 1e-6 * max(1.0, float(np.abs(np.asarray(S.positions, float)).max()))
+            if tol_m < tol:
+                tol = tol_m
+                st.count("restorations_judged_by_the_measured_deviation_of_the_copies")
+        except Exception:
+            pass
     ok, why = c05.same_multiset(np.array(S.cell, float), multiset(S), multiset(S2), tol)
     if len(S2) != len(S) or not ok:
         ctx.fail("A->B->A does not restore the structure: %s (atoms %d -> %d)" % (why, len(S), len(S2)), witness=w)
@@ -230,7 +241,7 @@ def run_case(case, ctx):
             k = 6
         built = planted.build(rng, pat, case["cell"], atol, n_copies=k, crossings=[int(x) for x in rng.integers(0, 4, k)],
                               poses=[planted.POSES[int(x)] for x in rng.integers(0, len(planted.POSES), k)] if not case.get("exact") else
-                              [["axis_antiparallel_exact", "identity_exact"][int(x)] for x in rng.integers(0, 2, k)], n_bystanders=int(rng.integers(1, 7)),
+                              [["axis_antiparallel_exact", "identity_exact", "slightly_tilted_exact", "slightly_tilted_exact"][int(x)] for x in rng.integers(0, 4, k)], n_bystanders=int(rng.integers(1, 7)),
                               n_distractors=0 if kind != "self" else int(rng.integers(0, 2)), min_sep=1.3,
                               decoys=["mirror"] if (pat.get("chiral") and case["s"] % 2 == 0) else [])
         S = built["atoms"]
@@ -250,7 +261,7 @@ def run_case(case, ctx):
             n = check_noop(ctx, st, S, patterns.to_atoms(pat), atol, case["s"], w, variant=(case["s"] // 3) % 3,
                            group=built["planted"][0] if built["planted"] else None)
         else:
-            B = substituted(pat, rng, first=bool(case.get("exact")))
+            B = substituted(pat, rng, first=bool(case.get("exact")) and case["s"] % 2 == 0)
             if case.get("exact"):
                 st.count("two_step_histories_on_exact_copies_far_from_the_origin")
             if B is None:
